@@ -1,4 +1,5 @@
 import GitBugModel.Model.Identity
+import GitBugModel.Lemmas.Text
 /-!
 # C09 — identity histories are append-only and merged fast-forward only
 -/
@@ -212,6 +213,26 @@ theorem rejects_dropped_clock (last : List (String × Nat)) (v : Version) (rest 
     rw [List.all_eq_false]
     exact ⟨(name, told), hl, by simp [hn]⟩
   simp [validateFrom, this]
+
+/-- `control_character_rejected`: a version whose name, login or email holds a control character
+(U+0000..U+001F, U+007F..U+009F — tabs and line breaks included) is rejected, the safety of the
+texts being decided by the model of `text.SafeOneLine` -/
+theorem control_character_rejected (last : List (String × Nat)) (v : Version) (rest : List Version)
+    (name login email : List Char) (c : Char) (hc : c ∈ name ∨ c ∈ login ∨ c ∈ email)
+    (h : GitBugModel.Text.isControl c = true) :
+    validateFrom last (v.withTexts name login email :: rest) = false := by
+  apply rejects_unsafe
+  rcases hc with hc | hc | hc
+  · exact Or.inl (GitBugModel.Lemmas.Text.control_unsafe name c hc h)
+  · exact Or.inr (Or.inl (GitBugModel.Lemmas.Text.control_unsafe login c hc h))
+  · exact Or.inr (Or.inr (GitBugModel.Lemmas.Text.control_unsafe email c hc h))
+
+/-- texts that went through `CleanupOneLine` never make a version unsafe -/
+theorem cleaned_texts_safe (v : Version) (name login email : List Char) :
+    let v' := v.withTexts (GitBugModel.Text.cleanupOneLine name) (GitBugModel.Text.cleanupOneLine login)
+      (GitBugModel.Text.cleanupOneLine email)
+    v'.nameSafe = true ∧ v'.loginSafe = true ∧ v'.emailSafe = true := by
+  simp [Version.withTexts, GitBugModel.Lemmas.Text.cleanupOneLine_safe]
 
 /-! ## non-vacuity -/
 
